@@ -1172,7 +1172,7 @@ impl<'a> TInputProtocol for TBinaryUnsafeInputProtocol<'a> {
     }
 
     /// Skip a field with type `field_type` iterativly.
-    fn skip_till_depth(&mut self, field_type: TType, _: i8) -> Result<usize, ThriftException> {
+    fn skip_till_depth(&mut self, field_type: TType, depth: i8) -> Result<usize, ThriftException> {
         let mut ttype = field_type;
         let mut len: usize = 0;
         let mut stack: SmallVec<[SkipData; 8]> = SmallVec::<[SkipData; 8]>::new();
@@ -1311,6 +1311,13 @@ impl<'a> TInputProtocol for TBinaryUnsafeInputProtocol<'a> {
 
             if stack.is_empty() {
                 return Ok(len);
+            }
+            // one work-list entry per open container: same budget as the recursive skippers
+            if stack.len() >= depth.max(0) as usize {
+                return Err(new_protocol_exception(
+                    ProtocolExceptionKind::DepthLimit,
+                    format!("cannot parse past {:?}", ttype),
+                ));
             }
 
             let top = stack.last().unwrap();
